@@ -16,7 +16,9 @@ RULE = ("histories of real CLI invocations (init/new/cp/mv/rm/reset/commit/upgra
 
 # ordinary ids, and families in which one id runs through the inner directories of another object (direct layout)
 HISTORY_KW = dict(ids=[["obj0", "obj1", "obj2"], ["obj0", "obj1", "obj2"], ["a", "a/v1/content/docs/x", "a/v2/y", "a/b"], ["p", "p/v1/content", "p/v1/x", "q"],
-                       ["coll/2024/rep1", "coll/2024/rep2", "coll", "coll/2024"], ["grp/sub/b", "grp/sub/c", "grp"]])
+                       ["coll/2024/rep1", "coll/2024/rep2", "coll", "coll/2024"], ["grp/sub/b", "grp/sub/c", "grp"]],
+                  # purges (of objects, of ids that are only prefixes of objects) more often than by default
+                  weights=[30, 4, 6, 4, 4, 3, 1, 36, 9, 2])
 
 
 def make_oracles():
